@@ -1,8 +1,8 @@
 package main
 
 // Deterministic replays of the specific failing inputs of the recorded C09
-// findings (known_findings.d/C09.json; C, D and E are fixed in /repo and stay
-// here as directed regression replays, F is still open). Each scenario evaluates the property's
+// findings (all of C, D, E, F, G, G2 are fixed in /repo; their failing inputs stay
+// here as must-pass directed replays: a revert of a fix is a VIOLATION with that input). Each scenario evaluates the property's
 // own predicate (rebuild == fresh build; watch predicates report the edit) on a
 // minimal tree and reports a failure under its own kind and scenario name.
 
@@ -25,6 +25,7 @@ type scenario struct {
 	edit    map[string]string // path -> new contents ("" = delete)
 	links   map[string]string // symlinks of the initial tree: path -> target
 	relink  map[string]string // symlinks replaced by the edit
+	warmups int               // additional rebuilds of the unedited tree before the edit (cache hits)
 	watch   bool
 	comment string
 }
@@ -51,7 +52,7 @@ func knownScenarios() []scenario {
 	return []scenario{
 		{
 			name: "tsconfig-jsx-react-to-react-jsx",
-			what: "known-C-rebuild-stale-after-tsconfig-jsx-mode-edit",
+			what: "regression-C-rebuild-stale-after-tsconfig-jsx-mode-edit",
 			files: map[string]string{
 				"tsconfig.json": "{ \"compilerOptions\": { \"jsx\": \"react\" } }\n",
 				"app.jsx":       "console.log(<div/>);\n",
@@ -62,7 +63,7 @@ func knownScenarios() []scenario {
 		},
 		{
 			name: "entry-point-deleted-after-first-build",
-			what: "known-D-rebuild-diagnostic-differs-entry-point-prefix",
+			what: "regression-D-rebuild-diagnostic-differs-entry-point-prefix",
 			files: map[string]string{
 				"src/a.js": "console.log(1);\n",
 				"src/b.js": "console.log(2);\n",
@@ -73,7 +74,7 @@ func knownScenarios() []scenario {
 		},
 		{
 			name: "metafile-css-stub-revisited",
-			what: "known-E-rebuild-metafile-duplicate-css-input",
+			what: "regression-E-rebuild-metafile-duplicate-css-input",
 			files: map[string]string{
 				"a.js":  "import \"./s.css\";\nconsole.log(1);\n",
 				"s.css": "@import \"./t.css\";\n.a { color: red }\n",
@@ -119,7 +120,7 @@ func knownScenarios() []scenario {
 		},
 		{
 			name: "watch-record-of-directory-overwritten-by-file-read",
-			what: "known-F-watch-misses-shadowing-file-after-directory-record-overwritten",
+			what: "regression-F-watch-misses-shadowing-file-after-directory-record-overwritten",
 			files: map[string]string{
 				"src/a.js": "import \"./b\";\n//# sourceMappingURL=../src\n",
 				"src/b.js": "console.log(\"js\");\n",
@@ -135,7 +136,7 @@ func knownScenarios() []scenario {
 		},
 		{
 			name: "watch-symlink-retargeted",
-			what: "known-G-watch-misses-symlink-retarget",
+			what: "regression-G-watch-misses-symlink-change",
 			files: map[string]string{
 				"src/a.js": "import \"./link\";\n",
 				"src/x.js": "console.log(\"x\");\n",
@@ -149,7 +150,7 @@ func knownScenarios() []scenario {
 		},
 		{
 			name: "watch-dangling-symlink-target-created",
-			what: "known-G-watch-misses-symlink-retarget",
+			what: "regression-G-watch-misses-symlink-change",
 			files: map[string]string{
 				"src/a.js": "import \"./link\";\n",
 				"src/y.js": "console.log(\"y\");\n",
@@ -186,6 +187,9 @@ func streamKnown(seed uint64, tmp string) *Stats {
 			api.VerifWatchManual(ctx)
 		}
 		first, _ := canon(ctx.Rebuild())
+		for i := 0; i < sc.warmups; i++ {
+			ctx.Rebuild()
+		}
 		fresh0, _ := canon(api.Build(opts))
 		writeTree(root, sc.edit, old.Add(time.Hour))
 		for p, t := range sc.relink {
@@ -208,6 +212,7 @@ func streamKnown(seed uint64, tmp string) *Stats {
 			continue
 		}
 		if sc.watch {
+			st.Histogram[fmt.Sprintf("watch-scenario %s: fresh changed=%v dirty=%d", sc.name, fr != fresh0, len(dirty))]++
 			if fr != fresh0 && len(dirty) == 0 {
 				st.Fail(sc.what, in, "dirty paths: []", "at least one dirty path: the fresh build result changed")
 			}
